@@ -32,6 +32,7 @@ type C20Case struct {
 	Blocks []BlockSpec `json:"blocks"`
 	Plan   Plan        `json:"plan"`
 	Raw    stats.B     `json:"raw,omitempty"` // when set, the stream is exactly this (cases found by the native fuzzer)
+	CfgKind int        `json:"cfgkind,omitempty"` // default limit (L == 0): 0 nil config | 1 &ReadConfig{} | 2 MaxEventSize: -1 ("By default this limit is 64KB")
 }
 
 func (c C20Case) limit() int {
@@ -48,12 +49,15 @@ func genC20(t *rapid.T) C20Case {
 		c.L = 7 + stats.Pick(t, 58, "lsmall")
 	case k < 80:
 		c.L = 4090 + stats.Pick(t, 11, "l4k")
-	case k < 92:
+	case k < 94:
 		c.L = 0
 	default:
 		c.L = 70000
 	}
 	L := c.limit()
+	if c.L == 0 {
+		c.CfgKind = stats.Pick(t, 3, "cfgkind")
+	}
 	c.Via = stats.From(t, []string{"read", "read", "conn", "connbuf"}, "via")
 	if c.L == 0 && c.Via != "read" {
 		c.Via = "read" // the default limit is not configurable through Buffer
@@ -217,8 +221,13 @@ func checkC20Raw(t *testing.T, c C20Case, stream []byte) *stats.Verdict {
 	switch c.Via {
 	case "read":
 		var cfg *sse.ReadConfig
-		if c.L != 0 {
+		switch {
+		case c.L != 0:
 			cfg = &sse.ReadConfig{MaxEventSize: c.L}
+		case c.CfgKind == 1:
+			cfg = &sse.ReadConfig{}
+		case c.CfgKind == 2:
+			cfg = &sse.ReadConfig{MaxEventSize: -1}
 		}
 		items, extra, cr := readAll(stream, c.Plan, cfg, -1, nil)
 		if extra != 0 {
